@@ -1,2 +1,476 @@
-import FpgoVerif.Model.C20
-/-! Property theorems for C20 (none yet). -/
+import FpgoVerif.Proofs.C20Comb
+import FpgoVerif.Proofs.C20Curry
+import FpgoVerif.Proofs.C20Match
+import FpgoVerif.Gen.Skeletons
+/-! Property theorems for C20 — "Combinators compose in the documented order; pattern matching is
+    first-match".  Every theorem is about the definitions of `Model/C20*.lean` that the driver runs. -/
+namespace FpgoVerif.C20
+
+variable {α : Type}
+
+/-! ## Compose / Pipe -/
+
+/-- `Compose(f1..fn)(x) = f1(f2(...fn(x)))` (functions may panic: Kleisli right fold). -/
+theorem C20_compose (fs : List (Fn α)) (s : List α) (h : fs ≠ []) :
+    compose fs s = fs.foldr (fun f acc => acc.bind f) (.ok s) := compose_eq_foldr fs s h
+example : compose [total (List.map (4 * · + 1)), total (List.map (4 * · + 2))] [1] = .ok [25] := by decide
+
+/-- the same for functions that never panic: plain nested application, innermost = last -/
+theorem C20_compose_total (fs : List (List α → List α)) (s : List α) (h : fs ≠ []) :
+    compose (fs.map total) s = .ok (fs.foldr (fun f acc => f acc) s) := by
+  rw [compose_eq_foldr _ _ (by simpa using h)]
+  induction fs with
+  | nil => exact absurd rfl h
+  | cons f rest ih =>
+    cases rest with
+    | nil => rfl
+    | cons g rest' =>
+      have := ih (by simp)
+      simp only [foldrK, List.map_cons, List.foldr_cons] at this ⊢
+      rw [this]; rfl
+
+/-- `Pipe(f1..fn)(x) = fn(...f1(x))` (Kleisli left fold). -/
+theorem C20_pipe (fs : List (Fn α)) (s : List α) (h : fs ≠ []) :
+    pipe fs s = fs.foldl (fun acc f => acc.bind f) (.ok s) := pipe_eq_foldl fs s h
+example : pipe [total (List.map (4 * · + 1)), total (List.map (4 * · + 2))] [1] = .ok [22] := by
+  rw [C20_pipe _ _ (by simp)]; decide
+
+example : ([List.map (· + 1), List.reverse] : List (List Int → List Int)) ≠ [] := by simp
+
+theorem C20_pipe_total (fs : List (List α → List α)) (s : List α) (h : fs ≠ []) :
+    pipe (fs.map total) s = .ok (fs.foldl (fun acc f => f acc) s) := by
+  rw [pipe_eq_foldl _ _ (by simpa using h)]
+  simp only [foldlK]
+  clear h
+  induction fs generalizing s with
+  | nil => rfl
+  | cons f rest ih => simp only [List.map_cons, List.foldl_cons]; exact ih (f s)
+
+/-- the empty function list panics (index out of range), for both -/
+theorem C20_compose_pipe_empty (s : List α) :
+    compose ([] : List (Fn α)) s = .panic ∧ pipe ([] : List (Fn α)) s = .panic := ⟨rfl, pipe_nil s⟩
+
+/-- `Compose(fs) = Pipe(reverse(fs))`, for every list (both panic on the empty one). -/
+theorem C20_compose_pipe_reverse (fs : List (Fn α)) (s : List α) : compose fs s = pipe fs.reverse s := by
+  by_cases h : fs = []
+  · subst h; exact (pipe_nil s).symm ▸ rfl
+  · rw [compose_eq_foldr fs s h, pipe_eq_foldl fs.reverse s (by simpa using h), foldlK_reverse]
+
+/-- associativity under regrouping: `Compose(fs ++ gs) = Compose(Compose(fs), Compose(gs))` -/
+theorem C20_compose_regroup (fs gs : List (Fn α)) (s : List α) (hf : fs ≠ []) (hg : gs ≠ []) :
+    compose (fs ++ gs) s = compose [compose fs, compose gs] s := by
+  rw [compose_eq_foldr _ _ (by simp [hf]), foldrK_append]
+  simp only [compose]
+  rw [compose_eq_foldr gs s hg]
+  congr 1
+  funext x
+  exact (compose_eq_foldr fs x hf).symm
+example : ([total (List.map (· + 1))] : List (Fn Int)) ≠ [] := by simp
+
+/-- `Pipe(fs ++ gs) = Pipe(Pipe(fs), Pipe(gs))` -/
+theorem C20_pipe_regroup (fs gs : List (Fn α)) (s : List α) (hf : fs ≠ []) (hg : gs ≠ []) :
+    pipe (fs ++ gs) s = pipe [pipe fs, pipe gs] s := by
+  rw [pipe_eq_foldl _ _ (by simp [hf]), foldlK_append, pipe_eq_foldl [pipe fs, pipe gs] s (by simp)]
+  simp only [foldlK, List.foldl_cons, List.foldl_nil, Res.bind_ok]
+  rw [pipe_eq_foldl fs s hf]
+  congr 1
+  funext x
+  exact (pipe_eq_foldl gs x hg).symm
+
+/-- the implementation model and the Spec the oracle (`judge`) evaluates agree on every input -/
+theorem C20_compose_pipe_spec (fs : List (Fn α)) (s : List α) :
+    compose fs s = Spec.compose fs s ∧ pipe fs s = Spec.pipe fs s := by
+  cases fs with
+  | nil => exact ⟨rfl, pipe_nil s⟩
+  | cons f rest => exact ⟨compose_eq_foldr _ _ (by simp), pipe_eq_foldl _ _ (by simp)⟩
+
+/-! ## Adapters: exactly the bound, then the supplied arguments, in order -/
+
+/-- `MakeVariadicParamN` hands `args[0..N-1]` to `fn` in order, ignores the rest, and panics exactly when
+    fewer than `N` are supplied. -/
+theorem C20_makeVariadicParam {β : Type} (args : List α) :
+    (∀ fn : α → β, makeVariadicParam1 fn args =
+      if h : 1 ≤ args.length then .ok (fn args[0]) else .panic) ∧
+    (∀ fn : α → α → β, makeVariadicParam2 fn args =
+      if h : 2 ≤ args.length then .ok (fn args[0] args[1]) else .panic) ∧
+    (∀ fn : α → α → α → β, makeVariadicParam3 fn args =
+      if h : 3 ≤ args.length then .ok (fn args[0] args[1] args[2]) else .panic) ∧
+    (∀ fn : α → α → α → α → β, makeVariadicParam4 fn args =
+      if h : 4 ≤ args.length then .ok (fn args[0] args[1] args[2] args[3]) else .panic) ∧
+    (∀ fn : α → α → α → α → α → β, makeVariadicParam5 fn args =
+      if h : 5 ≤ args.length then .ok (fn args[0] args[1] args[2] args[3] args[4]) else .panic) ∧
+    (∀ fn : α → α → α → α → α → α → β, makeVariadicParam6 fn args =
+      if h : 6 ≤ args.length then .ok (fn args[0] args[1] args[2] args[3] args[4] args[5]) else .panic) := by
+  refine ⟨?_, ?_, ?_, ?_, ?_, ?_⟩ <;> intro fn
+  · rcases args with _ | ⟨a0, _⟩ <;> simp [makeVariadicParam1]
+  · rcases args with _ | ⟨a0, _ | ⟨a1, _⟩⟩ <;> simp [makeVariadicParam2]
+  · rcases args with _ | ⟨a0, _ | ⟨a1, _ | ⟨a2, _⟩⟩⟩ <;> simp [makeVariadicParam3]
+  · rcases args with _ | ⟨a0, _ | ⟨a1, _ | ⟨a2, _ | ⟨a3, _⟩⟩⟩⟩ <;> simp [makeVariadicParam4]
+  · rcases args with _ | ⟨a0, _ | ⟨a1, _ | ⟨a2, _ | ⟨a3, _ | ⟨a4, _⟩⟩⟩⟩⟩ <;> simp [makeVariadicParam5]
+  · rcases args with _ | ⟨a0, _ | ⟨a1, _ | ⟨a2, _ | ⟨a3, _ | ⟨a4, _ | ⟨a5, _⟩⟩⟩⟩⟩⟩ <;> simp [makeVariadicParam6]
+
+/-- `MakeVariadicReturnN` passes all arguments and returns the N results in order. -/
+theorem C20_makeVariadicReturn {β : Type} (args : List α) :
+    (∀ fn : List α → β, makeVariadicReturn1 fn args = [fn args]) ∧
+    (∀ fn : List α → β × β, makeVariadicReturn2 fn args = [(fn args).1, (fn args).2]) ∧
+    (∀ fn : List α → β × β × β, makeVariadicReturn3 fn args = [(fn args).1, (fn args).2.1, (fn args).2.2]) ∧
+    (∀ fn : List α → β × β × β × β, makeVariadicReturn4 fn args =
+      [(fn args).1, (fn args).2.1, (fn args).2.2.1, (fn args).2.2.2]) ∧
+    (∀ fn : List α → β × β × β × β × β, makeVariadicReturn5 fn args =
+      [(fn args).1, (fn args).2.1, (fn args).2.2.1, (fn args).2.2.2.1, (fn args).2.2.2.2]) ∧
+    (∀ fn : List α → β × β × β × β × β × β, makeVariadicReturn6 fn args =
+      [(fn args).1, (fn args).2.1, (fn args).2.2.1, (fn args).2.2.2.1, (fn args).2.2.2.2.1, (fn args).2.2.2.2.2]) :=
+  ⟨fun _ => rfl, fun _ => rfl, fun _ => rfl, fun _ => rfl, fun _ => rfl, fun _ => rfl⟩
+
+/-- `CurryParamN(fn, bound…)(supplied…)` calls `fn` with exactly `bound ++ supplied` (stated for an
+    `fn` that looks at its whole argument list `g`). -/
+theorem C20_curryParam {β : Type} (g : List α → β) (a b c d e f : α) (args : List α) :
+    curryParam1 (fun a rest => g (a :: rest)) a args = g ([a] ++ args) ∧
+    curryParam1ForSlice1 (fun a rest => g (a :: rest)) a args = g ([a] ++ args) ∧
+    curryParam2 (fun a b rest => g (a :: b :: rest)) a b args = g ([a, b] ++ args) ∧
+    curryParam3 (fun a b c rest => g (a :: b :: c :: rest)) a b c args = g ([a, b, c] ++ args) ∧
+    curryParam4 (fun a b c d rest => g (a :: b :: c :: d :: rest)) a b c d args = g ([a, b, c, d] ++ args) ∧
+    curryParam5 (fun a b c d e rest => g (a :: b :: c :: d :: e :: rest)) a b c d e args = g ([a, b, c, d, e] ++ args) ∧
+    curryParam6 (fun a b c d e f rest => g (a :: b :: c :: d :: e :: f :: rest)) a b c d e f args
+      = g ([a, b, c, d, e, f] ++ args) :=
+  ⟨rfl, rfl, rfl, rfl, rfl, rfl, rfl⟩
+
+/-! ## Trampoline -/
+
+/-- `Trampoline` = "iterate the step until the first iterate on which it reports done or an error"
+    (error has priority; `hang` when no such iterate exists within the fuel). -/
+theorem C20_trampoline (fn : List α → StepOut α) (fuel : Nat) (s : List α) :
+    trampoline fn fuel s = Spec.trampoline fn fuel s := by
+  induction fuel generalizing s with
+  | zero => rfl
+  | succ n ih =>
+    have hrange : List.range (n + 1) = 0 :: (List.range n).map (· + 1) := by
+      rw [List.range_succ_eq_map]
+    unfold Spec.trampoline
+    rw [hrange, List.find?_cons]
+    cases herr : (fn s).err with
+    | some e =>
+      have : Spec.stops fn s 0 = true := by simp [Spec.stops, Spec.iter, herr]
+      simp [trampoline, herr, this, Spec.iter]
+    | none =>
+      cases hd : (fn s).isDone with
+      | true =>
+        have : Spec.stops fn s 0 = true := by simp [Spec.stops, Spec.iter, herr, hd]
+        simp [trampoline, herr, hd, this, Spec.iter]
+      | false =>
+        have : Spec.stops fn s 0 = false := by simp [Spec.stops, Spec.iter, herr, hd]
+        simp only [trampoline, herr, hd, this, List.find?_map]
+        rw [ih (fn s).result]
+        unfold Spec.trampoline
+        have hcomp : (Spec.stops fn s ∘ fun x => x + 1) = Spec.stops fn (fn s).result := by
+          funext k; exact stops_succ fn s k
+        simp only [Bool.false_eq_true, if_false, hcomp]
+        cases (List.range n).find? (Spec.stops fn (fn s).result) with
+        | none => rfl
+        | some k => simp [iter_succ']
+
+/-- the result is that of the first stopping iterate `k` (if it is reached within the fuel) -/
+theorem C20_trampoline_first_stop (fn : List α → StepOut α) (fuel : Nat) (s : List α) (k : Nat)
+    (hk : k < fuel) (hbefore : ∀ j, j < k → Spec.stops fn s j = false) (hstop : Spec.stops fn s k = true) :
+    trampoline fn fuel s =
+      match (fn (Spec.iter fn s k)).err with
+      | some e => .err e
+      | none => .ok (fn (Spec.iter fn s k)).result := by
+  rw [C20_trampoline]
+  unfold Spec.trampoline
+  have : (List.range fuel).find? (Spec.stops fn s) = some k := by
+    rw [List.find?_eq_some_iff_append]
+    refine ⟨hstop, List.range k, (List.range (fuel - k - 1)).map (· + (k + 1)), ?_, ?_⟩
+    · have : fuel = k + (1 + (fuel - k - 1)) := by omega
+      conv => lhs; rw [this, List.range_add, List.range_add]
+      simp [List.map_map, Nat.add_comm, Nat.add_left_comm, Function.comp_def]
+    · intro a ha; simp at ha; simp [hbefore a ha]
+  rw [this]
+  rfl
+example : Spec.stops (trStep 3 (-1) 0) [0, 5] 2 = true ∧ Spec.stops (trStep 3 (-1) 0) [0, 5] 1 = false := by decide
+
+example : ∀ j, j < 2 → Spec.stops (trStep 5 (-1) 0) [0] j = false := by decide
+/-- no stopping iterate within the fuel: the loop is still running -/
+
+theorem C20_trampoline_runs_on (fn : List α → StepOut α) (fuel : Nat) (s : List α)
+    (h : ∀ j, j < fuel → Spec.stops fn s j = false) : trampoline fn fuel s = .hang := by
+  rw [C20_trampoline]
+  unfold Spec.trampoline
+  have : (List.range fuel).find? (Spec.stops fn s) = none := by
+    rw [List.find?_eq_none]; intro x hx; simp at hx; simp [h x hx]
+  rw [this]
+
+/-! ## CurryDef: any interleaving of atomic steps of any number of goroutines, plus MarkDone at any moment -/
+
+/-- Arguments accumulate in lock order: `args` is the concatenation of the argument lists of the Calls
+    that passed the done-check (`hist`), these are a subsequence of all Calls in lock-acquisition order,
+    and as long as nobody marked done no Call was skipped. -/
+theorem C20_curry_accumulates (fn : CurryFn) (scripts : List (List (List Int))) (c : Curry)
+    (r : CReach fn (Curry.init scripts) c) :
+    c.args = c.hist.flatten ∧ c.hist.Sublist c.lockOrder ∧
+    (c.cur = none → c.isDone = false → c.hist = c.lockOrder) := by
+  have inv := cinv_reach (cinv_init fn scripts) r
+  refine ⟨inv.args_eq, ?_, ?_⟩
+  · have hs := inv.shape
+    unfold CShape at hs
+    split at hs
+    · exact hs.1
+    · obtain ⟨lo, h1, h2, _⟩ := hs; rw [h1]; exact h2.trans (List.sublist_append_left lo _)
+    · obtain ⟨lo, h1, h2, _⟩ := hs; rw [h1, h2]; exact List.sublist_append_left lo _
+    · obtain ⟨lo, h1, h2, _⟩ := hs; rw [h1, h2]; exact List.Sublist.refl _
+    · exact hs.1
+  · intro hcur hd
+    have hs := inv.shape
+    simp only [CShape, hcur] at hs
+    exact hs.2.2 hd
+example : CReach (curryFn 3) (Curry.init [[[1], [2]], [[3]]])
+    ((Curry.init [[[1], [2]], [[3]]]).markDone) := .step (.refl _) .markDone
+
+/-- `fn` is invoked once per accepted Call, with all arguments so far: the i-th invocation saw exactly
+    the concatenation of the first i+1 accepted Calls; the number of invocations equals the number of
+    accepted Calls (minus the one whose invocation is in progress). -/
+theorem C20_curry_fn_once_per_call (fn : CurryFn) (scripts : List (List (List Int))) (c : Curry)
+    (r : CReach fn (Curry.init scripts) c) :
+    (∀ i, i < c.log.length → c.log[i]? = some ((c.hist.take (i + 1)).flatten)) ∧
+    c.log.length ≤ c.hist.length ∧ c.hist.length ≤ c.log.length + 1 ∧
+    (c.cur = none → c.log.length = c.hist.length) := by
+  have inv := cinv_reach (cinv_init fn scripts) r
+  have hs := inv.shape
+  have hplen : ∀ h, (prefixes h).length = h.length := fun h => prefixesFrom_length [] h
+  have main : ∀ h, c.log = prefixes h →
+      (∀ i, i < c.log.length → c.log[i]? = some ((h.take (i + 1)).flatten)) ∧ c.log.length = h.length := by
+    intro h hl
+    refine ⟨fun i hi => ?_, by rw [hl, hplen]⟩
+    rw [hl] at hi ⊢
+    exact prefixes_getElem? h i (by rwa [hplen] at hi)
+  unfold CShape at hs
+  split at hs
+  · obtain ⟨m1, m2⟩ := main _ hs.2.1; exact ⟨m1, by omega, by omega, fun _ => m2⟩
+  · rename_i hcur; obtain ⟨lo, _, _, h3, _⟩ := hs; obtain ⟨m1, m2⟩ := main _ h3
+    exact ⟨m1, by omega, by omega, fun h => by simp [hcur] at h⟩
+  · rename_i hcur; obtain ⟨lo, _, _, h3⟩ := hs; obtain ⟨m1, m2⟩ := main _ h3
+    exact ⟨m1, by omega, by omega, fun h => by simp [hcur] at h⟩
+  · rename_i a hcur; obtain ⟨lo, _, h2, h3⟩ := hs; obtain ⟨m1, m2⟩ := main _ h3
+    refine ⟨fun i hi => ?_, by rw [h2]; simp; omega, by rw [h2]; simp; omega, fun h => by simp [hcur] at h⟩
+    rw [m1 i hi, h2, List.take_append_of_le_length (by omega)]
+  · obtain ⟨m1, m2⟩ := main _ hs.2.1; exact ⟨m1, by omega, by omega, fun h => by rename_i hcur; simp [hcur] at h⟩
+
+/-- `Result` is the value returned by the last invocation of `fn` (the zero value before the first). -/
+theorem C20_curry_result (fn : CurryFn) (scripts : List (List (List Int))) (c : Curry)
+    (r : CReach fn (Curry.init scripts) c) :
+    c.result = match c.log.getLast? with | none => 0 | some l => (fn l).1 :=
+  (cinv_reach (cinv_init fn scripts) r).result_eq
+
+/-- After `MarkDone` (by `fn` itself or by anybody), once the Call in progress (if any) is over, `Result`,
+    the accumulated arguments and the set of invocations are frozen for every continuation. -/
+theorem C20_curry_frozen (fn : CurryFn) (c c' : Curry) (hdone : c.isDone = true)
+    (hquiet : c.cur = none ∨ ∃ a, c.cur = some (.checking, a) ∨ c.cur = some (.unlocking, a))
+    (r : CReach fn c c') :
+    c'.isDone = true ∧ c'.args = c.args ∧ c'.result = c.result ∧ c'.log = c.log := by
+  obtain ⟨hq, h1, h2, h3, _⟩ := quiet_reach ⟨hdone, hquiet⟩ r
+  exact ⟨hq.1, h1, h2, h3⟩
+example : (Curry.init [[[1]]]).markDone.isDone = true ∧ (Curry.init [[[1]]]).markDone.cur = none := ⟨rfl, rfl⟩
+
+/-- A sequential `Call` (the same atoms run back to back — what the driver executes for `cu` cases) is a
+    path of the transition system and refines the Spec: append, invoke with all arguments, store the
+    result — or nothing at all once done. -/
+theorem C20_curry_call_sequential (fn : CurryFn) (c : Curry) (a : List Int) (hcur : c.cur = none) :
+    CReach fn { c with pending := [[a]] } (c.callSeq fn a) ∧
+    (c.callSeq fn a).abs = c.abs.call fn a ∧ (c.callSeq fn a).cur = none :=
+  ⟨callSeq_reach fn c a hcur, callSeq_abs fn c a hcur⟩
+example : (Curry.init []).cur = none := rfl
+
+/-- no Call is lost or duplicated by the lock: at any moment the Calls that have taken the lock plus those
+    still to be made are exactly the Calls of the scripts -/
+theorem C20_curry_no_call_lost (fn : CurryFn) (scripts : List (List (List Int))) (c : Curry)
+    (r : CReach fn (Curry.init scripts) c) :
+    c.lockOrder.length + c.pendingCount = (scripts.map List.length).sum := by
+  have := count_reach r
+  simpa [Curry.init, Curry.pendingCount] using this
+
+/-- lock order respects every goroutine's program order: the Calls goroutine `t` has made so far are a
+    prefix of its script and occur in that order within the lock order -/
+theorem C20_curry_program_order (fn : CurryFn) (scripts : List (List (List Int))) (c : Curry)
+    (r : CReach fn (Curry.init scripts) c) (t : Nat) (s : List (List Int)) (hs : scripts[t]? = some s) :
+    ∃ (made rest : List (List Int)), c.pending[t]? = some rest ∧ s = made ++ rest ∧ made.Sublist c.lockOrder :=
+  progOrder_reach r t s hs
+example : ([[[1], [2]], [[3]]] : List (List (List Int)))[1]? = some [[3]] := rfl
+
+/-- the whole sequential script run by the driver (`cu` cases) prints exactly what the Spec prints -/
+theorem C20_curry_script (fn : CurryFn) (ts : List String) :
+    runScript (curryTokImpl fn) (Curry.init []) ts = runScript (curryTokSpec fn) Spec.CurryS.init ts := by
+  have h := curry_script_refines fn ts (Curry.init []) [] rfl
+  unfold runScript
+  exact congrArg (fun outs => " | ".intercalate (List.reverse outs)) h
+
+/-- the protocol shapes that implement the atom sequence the transition system assumes for `Call` (lock;
+    done-check; append; invoke; store; unlock): the current text, the same with a deferred unlock, and both
+    with the done-check spelled `IsDone()` -/
+def acceptedCallSkeletons : List String := [
+  "call(callM.Lock) if[get(isDone) call(isDone.Get)]{get(args) call(append) set(args) get(args) callfn(fn) set(result)} call(callM.Unlock) return",
+  "call(callM.Lock) defer{call(callM.Unlock)} if[get(isDone) call(isDone.Get)]{get(args) call(append) set(args) get(args) callfn(fn) set(result)} return",
+  "call(callM.Lock) if[call(IsDone)]{get(args) call(append) set(args) get(args) callfn(fn) set(result)} call(callM.Unlock) return",
+  "call(callM.Lock) defer{call(callM.Unlock)} if[call(IsDone)]{get(args) call(append) set(args) get(args) callfn(fn) set(result)} return"]
+
+/-- closing theorem over the skeletons regenerated from fp.go on this run: `Call` has one of the accepted
+    shapes, `MarkDone`/`IsDone` are a single atomic store/load of the flag, `Result` reads the field -/
+theorem C20_curry_call_skeleton :
+    (acceptedCallSkeletons.any (fun s => FpgoVerif.Gen.skeletonOf "CurryDef.Call" == some s)) = true ∧
+    FpgoVerif.Gen.skeletonOf "CurryDef.MarkDone" = some "get(isDone) call(isDone.Set)" ∧
+    FpgoVerif.Gen.skeletonOf "CurryDef.IsDone" = some "get(isDone) call(isDone.Get) return" ∧
+    FpgoVerif.Gen.skeletonOf "CurryDef.Result" = some "get(result) return" := by
+  decide +kernel
+
+/-! ## Sum / product / nil types and NewCompData -/
+
+/-- the loops of `SumType/ProductType/NilType.Matches` decide exactly "the arguments match the type" -/
+theorem C20_comptype_matches (t : CompType) (vs : List Atom) : t.matches vs = Spec.typeMatches t vs :=
+  matches_eq t vs
+
+/-- `NewCompData` returns a value iff its arguments match the declared type; the value holds exactly the
+    arguments, and `MatchCompType` on it decides the same relation. -/
+theorem C20_compdata (t : CompType) (vs : List Atom) :
+    ((newCompData t vs).isSome = true ↔ Spec.typeMatches t vs = true) ∧
+    (∀ o, newCompData t vs = some o → o = vs ∧ matchCompType t o = true) ∧
+    (∀ t', matchCompType t' vs = Spec.typeMatches t' vs) := by
+  refine ⟨?_, ?_, fun t' => matches_eq t' vs⟩
+  · unfold newCompData; rw [matches_eq]; split <;> simp_all
+  · intro o h
+    unfold newCompData at h
+    split at h
+    · rename_i hm; injection h with h; subst h; exact ⟨rfl, hm⟩
+    · cases h
+example : newCompData (.sum [.nilT, .prod [2, 24]]) [.int 2 1, .str false "x"] = some [.int 2 1, .str false "x"] := by decide
+
+/-! ## MatchFor / Either: first match in list order, panic exactly when none -/
+
+/-- each pattern's `Matches` decides the property's test (equality patterns holding comparable values) -/
+theorem C20_pattern_accepts (rx : String → String → Bool) (p : Pat) (v : GoVal) (h : p.inScope = true) :
+    p.matches rx v = .ok (Spec.accepts rx p v) := by
+  cases p with
+  | kind k =>
+    simp only [Pat.matches, Spec.accepts]
+    cases v.isNil
+    · simp only [Bool.false_eq_true, if_false, Bool.not_false, Bool.true_and]
+      congr 1
+      by_cases hk : k = v.valueKind
+      · rw [hk]
+      · have h1 : (k == v.valueKind) = false := by simp [hk]
+        have h2 : (v.valueKind == k) = false := by simp [Ne.symm hk]
+        rw [h1, h2]
+    · simp
+  | equal pv => exact goEq_comparable pv v h
+  | regex r =>
+    simp only [Pat.matches, Spec.accepts]
+    cases hc : (v.isNil || v.valueKind != kString) with
+    | true =>
+      have : v.text = none := by
+        cases ht : v.text with
+        | none => rfl
+        | some s =>
+          have := (text_some_iff v).mpr (by simp [ht])
+          rw [hc] at this; cases this
+      simp [this]
+    | false =>
+      have := (text_some_iff v).mp hc
+      cases ht : v.text with
+      | none => simp [ht] at this
+      | some s => simp
+  | sumT t =>
+    simp only [Pat.matches, Spec.accepts]
+    cases v <;> simp [matchCompType, matches_eq]
+  | otherwise => rfl
+
+/-- `MatchFor ps v` applies the effect of the first pattern (in list order) that accepts the value the
+    patterns see, to that value; it panics exactly when no pattern accepts. -/
+theorem C20_match (rx : String → String → Bool) (ps : List Pattern) (v : GoVal)
+    (h : ∀ p ∈ ps, p.pat.inScope = true) : matchFor rx ps v = Spec.matchFor rx ps v := by
+  induction ps with
+  | nil => rfl
+  | cons p rest ih =>
+    have hp := C20_pattern_accepts rx p.pat (Spec.view v) (h p (by simp))
+    have ih' := ih (fun q hq => h q (by simp [hq]))
+    simp only [matchFor, preprocess_eq_view, hp, Spec.matchFor, List.find?_cons]
+    cases hacc : Spec.accepts rx p.pat (Spec.view v) with
+    | true => simp
+    | false => simpa [Spec.matchFor] using ih'
+example : ∀ p ∈ [(⟨.kind 2, 0⟩ : Pattern), ⟨.equal (.atom (.str false "a")), 1⟩, ⟨.otherwise, 2⟩], p.pat.inScope = true := by
+  decide
+
+/-- least-index form: the result is effect `e` on `w` iff the list splits as `pre ++ p :: post` with no
+    pattern of `pre` accepting, `p` accepting, `e` = `p`'s effect and `w` the value the patterns see. -/
+theorem C20_match_first (rx : String → String → Bool) (ps : List Pattern) (v : GoVal)
+    (h : ∀ p ∈ ps, p.pat.inScope = true) (e : Nat) (w : GoVal) :
+    matchFor rx ps v = .ok (e, w) ↔
+      ∃ pre p post, ps = pre ++ p :: post ∧ (∀ q ∈ pre, Spec.accepts rx q.pat (Spec.view v) = false) ∧
+        Spec.accepts rx p.pat (Spec.view v) = true ∧ e = p.eff ∧ w = Spec.view v := by
+  rw [C20_match rx ps v h]
+  unfold Spec.matchFor
+  constructor
+  · intro hm
+    cases hf : ps.find? (fun p => Spec.accepts rx p.pat (Spec.view v)) with
+    | none => rw [hf] at hm; cases hm
+    | some p =>
+      rw [hf] at hm
+      injection hm with hm
+      injection hm with h1 h2
+      obtain ⟨hacc, pre, post, hsplit, hpre⟩ := List.find?_eq_some_iff_append.mp hf
+      exact ⟨pre, p, post, hsplit, fun q hq => by simpa using hpre q hq, hacc, h1.symm, h2.symm⟩
+  · rintro ⟨pre, p, post, hsplit, hpre, hacc, he, hw⟩
+    have : ps.find? (fun p => Spec.accepts rx p.pat (Spec.view v)) = some p :=
+      List.find?_eq_some_iff_append.mpr ⟨hacc, pre, post, hsplit, fun q hq => by simp [hpre q hq]⟩
+    rw [this, he, hw]
+
+/-- it panics iff no pattern accepts; in particular never when the list contains `Otherwise` -/
+theorem C20_match_panic_iff (rx : String → String → Bool) (ps : List Pattern) (v : GoVal)
+    (h : ∀ p ∈ ps, p.pat.inScope = true) :
+    matchFor rx ps v = .panic ↔ ∀ p ∈ ps, Spec.accepts rx p.pat (Spec.view v) = false := by
+  rw [C20_match rx ps v h]
+  unfold Spec.matchFor
+  cases hf : ps.find? (fun p => Spec.accepts rx p.pat (Spec.view v)) with
+  | none =>
+    simp only [true_iff]
+    intro p hp
+    have := List.find?_eq_none.mp hf p hp
+    simpa using this
+  | some p =>
+    simp only [reduceCtorEq, false_iff]
+    intro hall
+    have hmem := List.mem_of_find?_eq_some hf
+    have hacc := List.find?_some hf
+    rw [hall p hmem] at hacc
+    cases hacc
+
+theorem C20_otherwise_catches_everything (rx : String → String → Bool) (ps : List Pattern) (v : GoVal)
+    (h : ∀ p ∈ ps, p.pat.inScope = true) (e : Nat) (ho : (⟨.otherwise, e⟩ : Pattern) ∈ ps) :
+    matchFor rx ps v ≠ .panic := by
+  intro hp
+  have := (C20_match_panic_iff rx ps v h).mp hp _ ho
+  simp [Spec.accepts] at this
+
+/-- The pinned code (before 33c3a0d) violated first-match: `InCaseOfEqual(p)` never matched the pointer `p`
+    itself because `MatchFor` dereferenced every pointer to a struct. -/
+theorem C20_pinned_deref_refuted (rx : String → String → Bool) :
+    ∃ ps v, (∀ p ∈ ps, p.pat.inScope = true) ∧ matchForPinned rx ps v ≠ Spec.matchFor rx ps v :=
+  by
+  refine ⟨[⟨.equal (.atom (.ptr 0 1)), 0⟩, ⟨.otherwise, 1⟩], .atom (.ptr 0 1), by decide, ?_⟩
+  have h1 : matchForPinned rx [⟨.equal (.atom (.ptr 0 1)), 0⟩, ⟨.otherwise, 1⟩] (.atom (.ptr 0 1))
+      = .ok (1, .atom (.strct 0 0)) := by rfl
+  have h2 : Spec.matchFor rx [⟨.equal (.atom (.ptr 0 1)), 0⟩, ⟨.otherwise, 1⟩] (.atom (.ptr 0 1))
+      = .ok (0, .atom (.ptr 0 1)) := by rfl
+  rw [h1, h2]; decide
+
+/-- The pinned code (before c5a1b66) panicked on a defined string type although `Otherwise` follows. -/
+theorem C20_pinned_regex_refuted (rx : String → String → Bool) :
+    matchForPinned rx [⟨.regex "lit:abc", 0⟩, ⟨.otherwise, 1⟩] (.atom (.str true "abc")) = .panic ∧
+    Spec.matchFor rx [⟨.regex "lit:abc", 0⟩, ⟨.otherwise, 1⟩] (.atom (.str true "abc")) ≠ .panic := by
+  constructor
+  · rfl
+  · simp only [Spec.matchFor, List.find?_cons, Spec.accepts, Spec.view, GoVal.text]
+    cases rx "lit:abc" "abc" <;> simp
+
+/-- `Either(v, ps...)` is `MatchFor` -/
+theorem C20_either (rx : String → String → Bool) (ps : List Pattern) (v : GoVal) :
+    either rx v ps = matchFor rx ps v := rfl
+
+end FpgoVerif.C20
